@@ -66,7 +66,7 @@ manifest = {
     "setup_cmd": "cd /verif && ./check determinism 40",
     "hooks": {
         "guard": "cargo feature iggy_verif (crates iggy and server; off by default)",
-        "enable": "the harness package /verif/sim depends on /repo/server and /repo/sdk by path with features=[\"iggy_verif\"]; every ./check rebuilds it from /repo's working tree",
+        "enable": "the harness package /verif/sim depends on /repo/server and /repo/sdk by path with features=[\"iggy_verif\"] (server also with its own pre-existing feature disable-mimalloc, so that the harness can put an allocation-size probe in front of the system allocator); every ./check rebuilds it from /repo's working tree",
         "baseline_off_cmd": "cd /repo && cargo nextest run --workspace --no-fail-fast --test-threads 8 --offline",
         "source_commits": hooks,
         "add_only": True,
